@@ -35,10 +35,25 @@ def job_text(kind, jid, d):
         return '( msleep %d; logline "$L" done %s ) &' % (d, jid)
     if kind == "andor":
         return 'msleep %d && logline "$L" done %s &' % (d, jid)
+    # jobs that do their work and then END WITH A SHELL ERROR (failed expansion, division by zero, assignment to a readonly variable):
+    # the error belongs to the job; `wait` must still wait for every other job and must not fail or be cut short by it
+    if kind == "err_expand":
+        return '{ msleep %d; logline "$L" done %s; : ${verif_never_set?gone}; } 2>/dev/null &' % (d, jid)
+    if kind == "err_arith":
+        return '{ msleep %d; logline "$L" done %s; : $((1/0)); } 2>/dev/null &' % (d, jid)
+    if kind == "err_readonly":
+        return '( msleep %d; logline "$L" done %s; readonly rr=1; rr=2 ) 2>/dev/null &' % (d, jid)
+    # jobs whose output goes through the SHELL's own `>>` into one file shared by several jobs (and by the foreground): the redirection is
+    # opened when the job starts and written later, so concurrent appenders overlap; after `wait` every line must be there exactly once
+    if kind == "append_group":
+        return '{ msleep %d; echo "app %s"; logline "$L" done %s; } >> "$D/app.log" &' % (d, jid, jid)
+    if kind == "append_ext":
+        return 'slog %d "$L" done %s >> "$D/app.log"; echo "app %s" >> "$D/app.log" &' % (d, jid, jid) if False else \
+               '( msleep %d; logline "$L" done %s; echo "app %s" ) >> "$D/app.log" &' % (d, jid, jid)
     raise ValueError(kind)
 
 
-KINDS = ["ext", "group", "pipe", "func", "loop", "subshell", "andor"]
+KINDS = ["ext", "group", "pipe", "func", "loop", "subshell", "andor", "err_expand", "err_arith", "err_readonly", "append_group", "append_ext"]
 DURS = [0, 15, 30, 45, 60]
 
 
@@ -64,6 +79,8 @@ def gen_case(rng, small=None):
             if rng.random() < 0.4:
                 fg += 1
                 block.append('logline "$L" fg %d' % fg)
+                if rng.random() < 0.5:
+                    block.append('echo "app fg%d" >> "$D/app.log"' % fg)
             if rng.random() < 0.25:
                 listings += 1
                 block.append('jobs > "$D/jobs.%d" 2>&1' % listings)
@@ -171,6 +188,11 @@ def run_case(run, case, mode, cpus, pause):
             res["log"] = [l.rstrip("\n") for l in f]
     except OSError:
         pass
+    try:
+        with open(os.path.join(dd, "app.log"), errors="replace") as f:
+            res["app"] = [l.rstrip("\n") for l in f]
+    except OSError:
+        res["app"] = []
     for k in range(1, exp["listings"] + 1):
         try:
             with open(os.path.join(dd, "jobs.%d" % k)) as f:
@@ -202,6 +224,14 @@ def judge(run, item):
     bad = check_log(res["log"], exp)
     if b"@end" not in r.out:
         bad.append(("script-did-not-finish", "rc=%s" % res["rc"]))
+    want_app = re.findall(r'echo "(app \w+)"', script)
+    got_app = res.get("app", [])
+    for w in want_app:
+        if got_app.count(w) != 1:
+            bad.append(("appended-output-lost-or-doubled", "%r appears %d times in the shared append file %r" % (w, got_app.count(w), got_app[:12])))
+            break
+    if want_app and not any(b[0].startswith("appended") for b in bad):
+        run.count("append_lines_verified", len(want_app))
     for k, text in enumerate(res["listings"]):
         nums = re.findall(r"^\[(\d+)\]", text, re.M)
         if len(nums) != len(set(nums)):
@@ -239,13 +269,15 @@ def run(run):
     scale = getattr(run, "scale", 1.0)
     rng = run.rng("c17")
     run.orders = set()
-    run.rule = ("job sets of 1-8 jobs (7 kinds: one external command, brace group, pipeline, function, loop, subshell, and-or list) with "
+    run.rule = ("job sets of 1-8 jobs (12 kinds: one external command, brace group, pipeline, function, loop, subshell, and-or list, two that write through the shell's own `>>` into one file shared with other jobs and the foreground, and three that end with a shell error after doing their work: failed ${v?}, division by zero, assignment to a readonly variable) with "
                 "durations from {0,15,30,45,60} ms, all finishing permutations for sets of 2-4, launched from top level / a function / a loop, "
                 "interleaved with foreground markers, `jobs` listings, repeated waits and later launches; file and stdin delivery; CPUs pinned "
                 "to 1, 2 or all; pause points on job-task start, wait_all and poll. Offline checks on the append-only log and the hook event "
                 "log. non-trivial = distinct (finishing order observed in the log, delivery mode)")
     run.assumptions = ["log lines are single O_APPEND writes by an external helper: log order = happens-before order",
                        "`wait <pid>`, `wait -n`, `$!` are outside the statement"]
+    from . import diffrun
+    diffrun.run_canaries(run, prelude="")
     items = []
     cpusets = [None, {0}, {0, 1}]
     pauses = [None, "job.task_start=20", "job.task_start#1=40", "jobs.wait_all=30", "jobs.poll=10,job.task_start#2=25"]
